@@ -12,6 +12,7 @@ import (
 	"bytes"
 	"crypto/rand"
 	"crypto/sha256"
+	"encoding/base64"
 	"encoding/binary"
 	"encoding/hex"
 	"io"
@@ -229,5 +230,113 @@ func TestVerifC05Upload(t *testing.T) {
 			t.Fatalf("unknown scenario %q", in.Plans[i].Scn)
 		}
 		c05UploadCase(t, scn, &in.Plans[i], env, in.Budget, false)
+	}
+}
+
+// ------------------------------------------- corrupt count files and the uploader
+
+// TestVerifC05UploadCorrupt: a count file that is corrupt at rest (the bytes
+// come from the counter harness, Corrupt.tla classes) lies in local/ next to a
+// good expired file and an active one; upload.Run must return, and the corrupt
+// file must either stay byte-identical or be folded into a report of its week.
+func TestVerifC05UploadCorrupt(t *testing.T) {
+	defer rt.Flush()
+	var in struct {
+		Files []struct {
+			ID   int    `json:"id"`
+			Name string `json:"name"`
+			Data string `json:"data"`
+		} `json:"files"`
+		Budget   int `json:"budget"`
+		MaxHangs int `json:"maxHangs"`
+	}
+	if err := rt.In(&in); err != nil {
+		t.Skip(err)
+	}
+	if in.Budget == 0 {
+		in.Budget = 200000
+	}
+	if in.MaxHangs == 0 {
+		in.MaxHangs = 20
+	}
+	rand.Reader = c05Reader{}
+	var logbuf bytes.Buffer
+	log.SetOutput(&logbuf)
+	defer log.SetOutput(os.Stderr)
+	mk := func(begin, end string, v uint64) []byte {
+		meta := rt.V1Meta(begin+"T00:00:00Z", end+"T00:00:00Z", "prog", "v1.0.0", "go1.21.0", "linux", "amd64")
+		data, err := rt.WriteV1(meta, []rt.V1Entry{{Name: "c", Value: v}})
+		if err != nil {
+			t.Fatal(err)
+		}
+		return data
+	}
+	good, active := mk("2024-02-19", "2024-02-26", 3), mk("2024-03-18", "2024-03-25", 4)
+	const goodName, activeName = "prog@v1.0.0-go1.21.0-linux-amd64-2024-02-19.v1.count", "prog@v1.0.0-go1.21.0-linux-amd64-2024-03-18.v1.count"
+	start := time.Date(2024, 3, 20, 12, 0, 0, 0, time.UTC)
+	exists := func(p string) bool { _, err := os.Lstat(p); return err == nil }
+	hangs := 0
+	for _, f := range in.Files {
+		if hangs >= in.MaxHangs {
+			rt.Out(rt.M{"kind": "skipped", "id": f.ID})
+			continue
+		}
+		data, err := base64.StdEncoding.DecodeString(f.Data)
+		if err != nil {
+			t.Fatal(err)
+		}
+		base := t.TempDir()
+		dir := filepath.Join(base, "tele")
+		local := filepath.Join(dir, "local")
+		os.MkdirAll(local, 0777)
+		os.MkdirAll(filepath.Join(dir, "upload"), 0777)
+		os.WriteFile(filepath.Join(dir, "mode"), []byte("local"), 0666)
+		os.WriteFile(filepath.Join(local, f.Name), data, 0666)
+		os.WriteFile(filepath.Join(local, goodName), good, 0666)
+		os.WriteFile(filepath.Join(local, activeName), active, 0666)
+		logbuf.Reset()
+		var rerr error
+		ret, n, where, text := c05h.Run("run", in.Budget, func() {
+			rerr = Run(RunConfig{TelemetryDir: dir, UploadURL: "http://127.0.0.1:1/unused", StartTime: start})
+		})
+		if ret == "hang" {
+			hangs++
+		}
+		out := rt.M{"kind": "case", "id": f.ID, "ret": ret, "steps": n, "where": where, "text": text, "err": rerr != nil,
+			"recovered": strings.Count(logbuf.String(), "upload recover"), "state": "", "bystanders": ""}
+		after, e := os.ReadFile(filepath.Join(local, f.Name))
+		var reports []string
+		ents, _ := os.ReadDir(local)
+		for _, e := range ents {
+			if strings.HasSuffix(e.Name(), ".json") {
+				reports = append(reports, e.Name())
+			}
+		}
+		sort.Strings(reports)
+		out["reports"] = reports
+		switch {
+		case e == nil && bytes.Equal(after, data):
+			out["state"] = "kept"
+		case e == nil:
+			out["state"] = "modified"
+		case exists(filepath.Join(local, "local.2024-03-05.json")):
+			out["state"] = "reported"
+		default:
+			out["state"] = "orphan"
+		}
+		var by []string
+		if a, e := os.ReadFile(filepath.Join(local, activeName)); e != nil || !bytes.Equal(a, active) {
+			by = append(by, "active count file changed")
+		}
+		if g, e := os.ReadFile(filepath.Join(local, goodName)); e != nil {
+			if !exists(filepath.Join(local, "local.2024-02-26.json")) {
+				by = append(by, "good count file deleted without report")
+			}
+		} else if !bytes.Equal(g, good) {
+			by = append(by, "good count file changed")
+		}
+		out["bystanders"] = strings.Join(by, "; ")
+		rt.Out(out)
+		os.RemoveAll(base)
 	}
 }
